@@ -67,14 +67,16 @@ def pools(quick):
                 opt(treat=8, err=[[]])]
     else:
         values = [-8, 3, 12, 17]
-        titles = ["NOTICE", "notice", "Hint", "warn", "WARN", "h\u00e9llo", "\u00d1u", "x", "R&D<a\\b>", "q\"\u2028\t", ""]
+        # (the worker keeps the recordings of all behaviours in memory: the pools are sized so that the number of
+        #  two-call sequences, (values x titles x opts)^2, stays where it was measured to fit - about 65 000)
+        titles = ["NOTICE", "notice", "warn", "WARN", "h\u00e9llo", "\u00d1u", "R&D<a\\b>", "q\"\u2028\t", ""]
         opts = [opt(),
                 opt(tags("", "S", "SW", "", "", "SWEEL"), treat=4, err=[[]], clr=1),
                 opt(treat=2, err=[[True], [False]]),
                 opt(tags("", "\u00e9", "", "abc", "", ""), treat=6, err=[[False, True]], clr=2),
                 opt(treat=0, err=[[False], []]),
                 opt(treat=5, err=[[True, False]]),
-                opt(treat=8, err=[[]]), opt(treat=9, err=[[]])]
+                opt(treat=8, err=[[]])]
     return dict(values=values, titles=titles, opts=opts)
 
 
